@@ -2,7 +2,7 @@
    cfg ranges over all configurations (any number of nodes, addresses shared or empty, any groups with
    shared nodes), h over all finite histories of events (including reloads, suppression scopes). *)
 From Coq Require Import List NArith ZArith Bool.
-From Dae Require Import C16_Spec C16_Model C16_Proofs C16_ProofsHealth C16_ProofsEdges C16_ProofsFloor C16_ProofsGroups C16_ProofsGroupsReload C16_ProofsGroupsFinal C16_ProofsNoRevive.
+From Dae Require Import C16_Spec C16_Model C16_Proofs C16_ProofsHealth C16_ProofsEdges C16_ProofsFloor C16_ProofsGroups C16_ProofsGroupsReload C16_ProofsGroupsFinal C16_ProofsNoRevive C16_ProofsInstances C16_ProofsHandover.
 From Dae.gen Require Import C16_Consts.
 Import ListNotations.
 Open Scope N_scope.
@@ -223,6 +223,41 @@ Theorem C16_reload_floor_partial :
   forall cfg h l, groups_disjoint cfg -> m_floor_ok cfg (m_run cfg (h ++ [EReload l])) = true.
 Proof. exact C16_reload_floor_partial_proof. Qed.
 Print Assumptions C16_reload_floor_partial.
+
+(* the hand-over is keyed by dialer instance.  In the model an instance is a number: a node with its own instance
+   in a group that overrides the check options is two numbers; the new instance n of a group is restored from the
+   old instance n (the same node in the same group): m_reload calls `inherit` with old := m_d m, and restoring
+   makes the instance's flags exactly the old instance's, touching no other instance *)
+Theorem C16_restore_exact :
+  forall cfg o m n l,
+    let m' := restore cfg o m n l in
+    (forall d, d_alive (m_d m' n) d = d_alive o d) /\ (forall n', n' <> n -> m_d m' n' = m_d m n').
+Proof. exact C16_restore_exact_proof. Qed.
+Print Assumptions C16_restore_exact.
+
+(* exactness of the hand-over, for every configuration of groups and instances and every history: together with
+   C16_reload_handover_partial (alive stays alive, counters cleared) a new instance differs from the old instance
+   of the same node in the same group only through the documented fallbacks: an instance in no group starts
+   alive, and a type that was not alive can be alive only for a member of a set-keeping group (floor candidate) *)
+Theorem C16_reload_handover_exact :
+  (forall cfg h l n, in_some_group cfg n = false -> forall d, model_alive cfg (h ++ [EReload l]) n d = true)
+  /\ (forall cfg h l n d,
+        model_alive cfg h n d = false -> model_alive cfg (h ++ [EReload l]) n d = true ->
+        in_some_group cfg n = false
+        \/ exists g, In g (c_groups cfg) /\ keeps_sets g = true /\ is_member n (g_members g) = true).
+Proof. exact (conj C16_reload_outside_groups_proof C16_reload_handover_exact_proof). Qed.
+Print Assumptions C16_reload_handover_exact.
+
+(* matching old instances by node name only (one map over all previous groups, last group wins) is refuted: the
+   alive first instance of X is handed the dead second instance's state, with a spurious callback *)
+Theorem C16_reload_name_only_refuted :
+  model_alive wit_cfg_inst wit_h_inst 0 Tcp4 = true
+  /\ model_alive wit_cfg_inst (wit_h_inst ++ [EReload []]) 0 Tcp4 = true
+  /\ model_alive wit_cfg_inst (wit_h_inst ++ [EReload []]) 1 Tcp4 = false
+  /\ d_alive (m_d (m_reload_matched pick_by_name wit_cfg_inst (clear_logs (m_run wit_cfg_inst wit_h_inst)) []) 0) Tcp4 = false
+  /\ m_tlog (m_reload_matched pick_by_name wit_cfg_inst (clear_logs (m_run wit_cfg_inst wit_h_inst)) []) = [(0, Tcp4, false); (1, Tcp4, false)].
+Proof. exact C16_reload_name_only_refuted_proof. Qed.
+Print Assumptions C16_reload_name_only_refuted.
 
 (* FULL statement for the reload floor — false of the faithful model (and of the code) when groups share a node *)
 Definition C16_reload_floor_full : Prop := C16_reload_floor_full_def.
